@@ -229,7 +229,7 @@ func (g *c02Gen) list(depth int, inBlock bool) (string, string) {
 			src.WriteString("<% " + c + " %>")
 			g.classes["silent:"+map[bool]string{true: "in-block", false: "top"}[inBlock]] = true
 		case k == 5: // comment tag
-			c := pick(g.r, []string{" plain comment ", " with # hash ", " it's ", " \"quoted\" ", " <b>tags</b> ", "\nmulti\nline\n", " `bq` ", " a = 1; let x ", " unbalanced \" quote ", " 100% ", ""})
+			c := pick(g.r, []string{" plain comment ", " with # hash ", " it's ", " \"quoted\" ", " <b>tags</b> ", "\nmulti\nline\n", " `bq` ", " a = 1; let x ", " unbalanced \" quote ", " 100% ", "", "a<", " x < y, y ><", " <% not a tag ", " <%= 1 ", "<", " \x00 "})
 			src.WriteString("<%#" + c + "%>")
 			g.classes["comment"] = true
 		default:
